@@ -645,6 +645,8 @@ def parse_cip_route(path: Union[str, List[str]], auto_slot: bool = False) -> Lis
         if not segments:
             _path = [PortSegment("bp", 0)] if auto_slot else []
         elif len(segments) == 1 and auto_slot:
+            if not (segments[0].isascii() and segments[0].isdigit()):  # the shortcut is <address>/<slot number>
+                raise RequestError(f"Invalid connection path, {segments[0]!r} is not a slot number")
             _path = [PortSegment("bp", segments[0])]
         else:
             if len(segments) % 2:
